@@ -1,12 +1,110 @@
 """C10 — event loop: exactly once, in order, one batch at a time (DESIGN.md §6 C10)."""
 import collections
+import concurrent.futures
+
+
+def kv(s):
+    return dict(f.split("=", 1) for f in s.split(" ") if "=" in f)
+
+
+def delivery_streams(ctx, dlines, plines, cov):
+    """The producer side (NGF.Model.Delivery): real Reconcilers parked behind a stalled loop start-up, and the
+    real FirstEventBatchPreparerImpl over a fake reader."""
+    # ---- (a) reconciler delivery
+    d_in, d_obs, j_in, incon = [], [], [], collections.Counter()
+    for l in dlines:
+        parts = dict(p.split(" ", 1) for p in l.split("\t") if " " in p)
+        if "X" in parts or "D" not in parts:
+            incon[parts.get("X", l[:60])] += 1
+            continue
+        d_in.append(parts["D"])
+        d_obs.append(parts["O"])
+        j_in.append(parts["J"])
+    verdicts = ctx.driver("djudge", j_in)
+    for j, v in zip(j_in, verdicts):
+        if v != "ok":
+            clause = v.replace("fail ", "")
+            ctx.finding(f"C10:{clause}",
+                        f"reconciler delivery violates {clause}: a reconcile request did not result in exactly one handled "
+                        f"event although the manager's context was live (or a failed Get was not reported)",
+                        {"djudge_input": j, "meaning": "qs = per-reconciler requests id:pass:get; recv = events the handler saw "
+                                                        "(2*id upsert, 2*id+1 delete); stall = ms during which nobody read the channel"})
+    outs = ctx.driver("dmodel", d_in)
+    ddiffs = 0
+    for m, o, out in zip(d_in, d_obs, outs):
+        want, got = kv(o), (kv(out) if out != "bad-op" else {})
+        bad = [k for k in want if got.get(k) != want[k]]
+        if bad or got.get("skipped") != "0" or got.get("quiet") != "true":
+            ddiffs += 1
+            if ddiffs <= 3:
+                ctx.broken(f"delivery: model and implementation disagree on [{m}]: impl {o} / model {out}",
+                           replay={"schedule": m, "impl": o, "model": out})
+    if incon and sum(incon.values()) > max(1, len(dlines) // 10):
+        ctx.broken(f"delivery: too many inconclusive cases: {dict(incon)}")
+    stalls = [int(kv(j)["stall"]) for j in j_in]
+    # ---- (b) start-up batch
+    p_in, p_obs = [], []
+    for l in plines:
+        parts = dict(p.split(" ", 1) for p in l.split("\t") if " " in p)
+        if "P" in parts and "O" in parts:
+            p_in.append(parts["P"])
+            p_obs.append(parts["O"])
+    pj_in = [f"{i} out={kv(o).get('batch', 'PANIC')}" for i, o in zip(p_in, p_obs)]
+    pver = ctx.driver("pjudge", pj_in)
+    for j, v in zip(pj_in, pver):
+        if v != "ok":
+            clause = v.replace("fail ", "")
+            ctx.finding(f"C10:{clause}",
+                        f"FirstEventBatchPreparerImpl.Prepare violates {clause}: the start-up batch is not exactly one upsert per "
+                        f"present object / list item (or Prepare failed although every read succeeded, or vice versa)",
+                        {"pjudge_input": j, "meaning": "objs = individually-fetched id:f(ound)|n(otfound)|e(rror); lists = items per "
+                                                        "list or E; out = upserts returned (2*id) or ERR"})
+    pouts = ctx.driver("pmodel", p_in)
+    pdiffs = 0
+    for i, o, out in zip(p_in, p_obs, pouts):
+        if o != out:
+            pdiffs += 1
+            if pdiffs <= 3:
+                ctx.broken(f"prepare: model and implementation disagree on [{i}]: impl {o} / model {out}",
+                           replay={"input": i, "impl": o, "model": out})
+    cov.update({
+        "delivery_cases": len(d_in),
+        "delivery_correspondence_diffs": ddiffs,
+        "delivery_inconclusive": dict(incon),
+        "delivery_cancelled_cases": sum(1 for j in j_in if kv(j)["cancelled"] == "1"),
+        "delivery_max_stall_ms": max(stalls) if stalls else 0,
+        "delivery_stall_histogram_ms": {k: sum(1 for s in stalls if lo <= s < hi) for k, lo, hi in
+                                        (("<100", 0, 100), ("100-999", 100, 1000), ("1000-5999", 1000, 6000), (">=6000", 6000, 10**9))},
+        "delivery_requests": sum(len(q.split(",")) for j in j_in for q in kv(j)["qs"].split("|")),
+        "delivery_samples": d_in[:2],
+        "prepare_cases": len(p_in),
+        "prepare_correspondence_diffs": pdiffs,
+        "prepare_cases_with_missing_object": sum(1 for i in p_in if ":n" in i),
+        "prepare_cases_aborting": sum(1 for o in p_obs if "batch=ERR" in o),
+        "prepare_samples": p_in[len(p_in) // 2:len(p_in) // 2 + 2],
+    })
+    return len(d_in) - ddiffs + len(p_in) - pdiffs
 
 
 def run(ctx):
     ctx.prepare()
     ctx.obligations("NGF.Props.C10")
+    ctx.obligations("NGF.Props.C10Delivery")
     if ctx.tier == "thorough":
         ctx.leanchecker("NGF.Props.C10")
+        ctx.leanchecker("NGF.Props.C10Delivery")
+
+    # the delivery stream contains a case whose reader is stalled for 6 s (thorough: up to 20 s): it runs in the
+    # background while the other streams execute
+    pool = concurrent.futures.ThreadPoolExecutor(2)
+    if ctx.tier == "quick":
+        dargs = ["-delivery", "-seed", ctx.seed + 32452843, "-n", 60, "-long", "6000", "-maxstall", 300]
+        pargs = ["-prepare", "-seed", ctx.seed + 49979687, "-n", 300, "-maxlists", 2]
+    else:
+        dargs = ["-delivery", "-seed", ctx.seed + 32452843, "-n", 1500, "-long", "6000,7500,11000,15000,20000", "-maxstall", 1200]
+        pargs = ["-prepare", "-seed", ctx.seed + 49979687, "-n", 5000, "-maxlists", 3]
+    dfut = pool.submit(ctx.harness, dargs)
+    pfut = pool.submit(ctx.harness, pargs)
 
     n_sync, n_racy, maxops = (300, 150, 30) if ctx.tier == "quick" else (6000, 3000, 60)
     lines = (ctx.harness(["-seed", ctx.seed, "-n", n_sync, "-maxops", maxops]) or []) + \
@@ -50,6 +148,12 @@ def run(ctx):
     if inconclusive and sum(inconclusive.values()) > len(lines) // 10:
         ctx.broken(f"too many inconclusive schedules: {dict(inconclusive)}")
 
+    dcov = {}
+    dlines, plines = dfut.result() or [], pfut.result() or []
+    if getattr(ctx, "harness_ok", False) and (not dlines or not plines):
+        ctx.broken("delivery/prepare stream produced no output", detail=str(getattr(ctx, "harness_err", "")))
+    d_ok = delivery_streams(ctx, dlines, plines, dcov)
+
     lens = collections.Counter(min(len(m.split("ops=")[1].split(",")) // 10, 6) for m in model_in)
     kinds = collections.Counter()
     for m in model_in:
@@ -58,13 +162,17 @@ def run(ctx):
     distinct = len(set(model_in) | set(judge_in))
     nontrivial = len({j for j in judge_in if "|" in j.split("batches=")[1].split(" ")[0]})
     ctx.finish({
-        "evaluations": len(lines),
+        **dcov,
+        "evaluations": len(lines) + len(dlines) + len(plines),
         "distinct_nontrivial": nontrivial,
         "rule": "schedules of send/release/cancel over the real EventLoop (sync: model equality + judge; racy: judge only; reconciler: "
                 "events delivered through the real controller.Reconciler as upserts/deletes, identity re-read from the event objects); "
+                "delivery: 1-3 real Reconcilers (filter / found / NotFound / Get error) parked behind a loop whose start-up is stalled "
+                "(one case 6 s in quick, up to 20 s in thorough), with and without cancellation, model equality + judge; prepare: real "
+                "FirstEventBatchPreparerImpl, exhaustive found/missing/error over <=4 objects x lists of 0-3 items or failing; "
                 "non-trivial = distinct schedules in which at least two batches were handled",
         "samples": model_in[:3] + judge_in[-2:],
-        "traces_validated_against_impl": len(model_in) - diffs,
+        "traces_validated_against_impl": len(model_in) - diffs + d_ok,
         "correspondence_diffs": diffs,
         "inconclusive": dict(inconclusive),
         "distinct_cases": distinct,
@@ -74,4 +182,8 @@ def run(ctx):
         "Go: unbuffered channel operations are rendezvous; select picks any ready arm; the harness observes the ack "
         "instant by the handler goroutine's exit (runtime.NumGoroutine)",
         "data races as such are outside the model",
+        "delivery: controller-runtime runs one Reconcile at a time per controller (MaxConcurrentReconciles = 1, the default NGF uses) "
+        "and calls it with the manager's context; a Reconcile that returns an error is requeued by controller-runtime (not modelled)",
+        "delivery: in cases where the harness cancels the context, an event the loop received but did not handle before it stopped "
+        "is indistinguishable from one given up at <-ctx.Done(); both are legal after cancellation and are replayed as give-ups",
     ])
